@@ -732,10 +732,11 @@ impl World {
         let name = format!("accept.{}", if side == 0 { "a" } else { "b" });
         obs.borrow_mut().begin(&name);
         let n2 = name.clone();
+        let restart = restart_waits();
         self.sim.spawn(name, group_of(side), async move {
             let mut i = 0;
             while i < n {
-                match mux.accept_stream_channel().await {
+                match wait_restarting(restart, || mux.accept_stream_channel()).await {
                     Ok(s) => {
                         let tag = s.dest_host.first().copied().unwrap_or(0xff);
                         obs.borrow_mut().ev(Ev::Accepted { tag, side, host: s.dest_host.to_vec(), port: s.dest_port });
@@ -766,10 +767,11 @@ impl World {
         let name = format!("accept{suffix}.{}", if side == 0 { "a" } else { "b" });
         obs.borrow_mut().begin(&name);
         let n2 = name.clone();
+        let restart = restart_waits();
         self.sim.spawn(name, group_of(side), async move {
             let mut i = 0;
             while i < n {
-                match mux.accept_stream_channel().await {
+                match wait_restarting(restart, || mux.accept_stream_channel()).await {
                     Ok(s) => {
                         let key = (s.dest_host.to_vec(), s.dest_port);
                         let (tag, plan) = table.get(&key).cloned().unwrap_or((0xff, EndPlan::Seq(vec![Op::Drop])));
@@ -812,6 +814,45 @@ pub fn opts(rwnd: u32, thr: u32) -> Options {
 
 pub fn bytes_of(v: &[u8]) -> Bytes {
     Bytes::copy_from_slice(v)
+}
+
+// ---------------------------------------------------------------- waits inside a select-like loop
+
+thread_local! {
+    /// When set (by a driver, for the executions of one case), the application actors below do not keep ONE future of
+    /// `accept_stream_channel` / `get_datagram` / `next_bind_request` across polls: like a `select!` in a loop they make
+    /// a fresh future for every poll and drop it when it is not ready. The three calls are documented as cancel safe
+    /// (and the penguin binaries use them exactly so), so nothing may be lost or duplicated that way.
+    pub static RESTART_WAITS: std::cell::Cell<bool> = const { std::cell::Cell::new(false) };
+}
+
+/// Sets `RESTART_WAITS` for the current thread until dropped (also when the execution unwinds).
+pub struct RestartWaits;
+impl RestartWaits {
+    pub fn set(v: bool) -> Self {
+        RESTART_WAITS.with(|c| c.set(v));
+        RestartWaits
+    }
+}
+impl Drop for RestartWaits {
+    fn drop(&mut self) {
+        RESTART_WAITS.with(|c| c.set(false));
+    }
+}
+
+pub fn restart_waits() -> bool {
+    RESTART_WAITS.with(std::cell::Cell::get)
+}
+
+pub async fn wait_restarting<T, F: Future<Output = T>>(restart: bool, mut mk: impl FnMut() -> F) -> T {
+    if !restart {
+        return mk().await;
+    }
+    std::future::poll_fn(|cx| {
+        let mut f = Box::pin(mk());
+        f.as_mut().poll(cx)
+    })
+    .await
 }
 
 // ---------------------------------------------------------------- datagram actors
@@ -865,10 +906,11 @@ impl World {
         let name = name.to_string();
         obs.borrow_mut().begin(&name);
         let n2 = name.clone();
+        let restart = restart_waits();
         self.sim.spawn(name, group_of(side), async move {
             let mut i = 0;
             while i < n {
-                match mux.get_datagram().await {
+                match wait_restarting(restart, || mux.get_datagram()).await {
                     Ok(d) => {
                         obs.borrow_mut().ev(Ev::DgramGot { side, flow: d.flow_id, host: d.target_host.to_vec(), port: d.target_port, data: d.data.to_vec() });
                         if echo {
@@ -935,13 +977,14 @@ impl World {
         let name = format!("bindresp{suffix}.{}", if side == 0 { "a" } else { "b" });
         obs.borrow_mut().begin(&name);
         let n2 = name.clone();
+        let restart = restart_waits();
         self.sim.spawn(name, group_of(side), async move {
             let mut held: Vec<Option<penguin_mux::BindRequest<'static>>> = Vec::new();
             loop {
                 if expect > 0 && held.len() >= expect {
                     break;
                 }
-                match mux.next_bind_request().await {
+                match wait_restarting(restart, || mux.next_bind_request()).await {
                     Ok(req) => {
                         obs.borrow_mut().ev(Ev::BindSeen {
                             side,
